@@ -363,7 +363,8 @@ def C06_5(ctx, facts):
                 o = r["ops"][r["fields"].index("token")]
                 rr = troots(g, o)
                 cls = {token_root_class(x) for x in rr} - {None}
-                ok = cls and all(x.startswith("own:token") or x in ("zero", "minted") for x in cls) and len(cls) == 1
+                # a literal fed from a choice made earlier (`let (token, pool) = match ..`) has one class per alternative
+                ok = cls and all(x.startswith("own:token") or x in ("zero", "minted") for x in cls)
                 ctx.check(ok, "%s|literal-%s" % (g.nkey, h.split("::")[-1]), "%s literal takes token from %s" % (h.split("::")[-1], sorted(cls)),
                           "%s literal token roots: %s" % (h.split("::")[-1], sorted(cls)), g.where(b))
                 if h.endswith("Pooled") and "zero" in cls:
@@ -373,7 +374,12 @@ def C06_5(ctx, facts):
                     shared = any(x.kind == "call" and x.site.is_("client::pool::PoolableConnection::reuse") for x in cr)
                     in_reg = g.nkey == "client::pool::checkout::register_connected"
                     if in_reg:
-                        okz, w = g.guarded(b, L_variant(g, "Some", of_call="client::pool::PoolableConnection::reuse"))
+                        # decided where the zero token is produced: every path on which it reaches the literal passes there
+                        zs = sorted({x.site.bb for x in rr if token_root_class(x) == "zero"})
+                        okz = bool(zs)
+                        for zb in zs:
+                            o1, w = g.guarded(zb, L_variant(g, "Some", of_call="client::pool::PoolableConnection::reuse"))
+                            okz = okz and o1
                     else:
                         okz = shared
                     ctx.check(okz, "%s|zero-token-only-shared" % g.nkey, "a zero (never hand back) token accompanies only a connection that reuse() declared shareable",
